@@ -109,6 +109,10 @@ def sd2(F, R):
         R.bad(fn, "frame", "cannot evaluate the frame assembly of card_command: %s" % e, fn.loc(wb))
         return
     stops = list(sent)
+    # card_command hands the card's R1 to its caller as it is: it builds no error of its own (a "fail fast on any error flag"
+    # check would swallow the illegal-command answer that identifies a version-1 card, and the flags CMD13 / CMD58 report)
+    own_errs = err_returns(fn, adt="Error")
+    R.require(not own_errs, fn, "r1-as-it-is", "card_command returns an error of its own (%s): every R1 with the top bit clear must be handed to the caller, who judges it" % sorted({x[2] for x in own_errs}), fn.loc(own_errs[0][0], own_errs[0][1]) if own_errs else fn.loc(0))
     R.require(bool(stops), fn, "frame", "no path of card_command reaches write_bytes", fn.loc(wb))
     cb, ab = bits_of(cmd), bits_of(arg)
     want = [tuple(cb[k] if k != 6 else 1 for k in range(8))]          # 0x40 | command (the start bit, bit 7, is the command's own)
@@ -1379,6 +1383,10 @@ def sd17(F, R):
             between = [bb for bb in fn.reach_after(init, cut_blocks=[b]) if b in fn.reach([bb], cut_blocks=[init])]
             dirty = [bb for bb in between if bb != b and fn.term(bb)["k"] == "Call" and uses_buf(fn.term(bb), bb)]
             stores = [bb for bb, ii, s in fn.stmts() if bb in between and bb != init and s["k"] == "Assign" and buf[0] == "var" and s["p"]["l"] == buf[1]]
+            # the transfer fills the buffer with what the card sent: a second trip through the same transfer (a retry loop) without
+            # passing the initialisation again clocks those bytes out
+            again = b in fn.reach_after(b, cut_blocks=[init])
+            R.require(not again, fn, "receive-buffer:fresh-each-time", "transfer_bytes(%s) can run again (a retry loop) without the buffer having been set back to 0xFF: the bytes received last time are clocked out to the card" % tstr(buf), fn.loc(b))
             R.require(not dirty and not stores, fn, "receive-buffer", "the receive buffer %s is modified between its 0xFF initialisation and the transfer" % tstr(buf), fn.loc(b), okdetail="%s is all 0xFF when handed to transfer_bytes" % tstr(buf))
     R.require(n >= 5, None, "sites", "expected >= 5 receive sites, found %d" % n)
 
